@@ -97,8 +97,16 @@ class MergeExtractor(BaseExtractor):
                                     tgt_col = Column(cqt.column)
                                     tgt_col.parent = list(holder.write)[0]
                                     insert_columns.append(tgt_col)
+                            values_bracketed = None
                             if values_clause := merge_insert.get_child("values_clause"):
-                                if bracketed := values_clause.get_child("bracketed"):
+                                values_bracketed = values_clause.get_child("bracketed")
+                            elif len(merge_insert.get_children("bracketed")) > 1:
+                                # tsql has VALUES (...) directly in the insert clause
+                                values_bracketed = merge_insert.get_children(
+                                    "bracketed"
+                                )[1]
+                            if values_bracketed is not None:
+                                if bracketed := values_bracketed:
                                     for j, e in enumerate(
                                         bracketed.get_children("literal", "expression")
                                     ):
